@@ -110,26 +110,28 @@ XML_NAMES = list(NAMES)
 
 
 @st.composite
-def xml_sample(draw, names, uris):
-    """An irregular well-formed document: the same name may be a leaf here and a parent there."""
+def xml_sample(draw, names, uris, layered=False):
+    """An irregular well-formed document: the same name may be a leaf here and a parent there.  `layered`: an element only
+    holds elements that come later in `names`, so the generated classes never refer to each other in a cycle."""
     budget = [draw(st.integers(3, 25))]
 
-    def node(depth):
+    def node(depth, after=-1):
         budget[0] -= 1
-        nm = draw(st.sampled_from(names))
+        pool = names[after + 1:] if layered else names
+        nm = draw(st.sampled_from(pool))
         ns = uris[sum(map(ord, nm)) % len(uris)]        # a local name lives in one namespace (recorded finding otherwise)
         el = etree.Element(S.qn(ns, nm), nsmap={f"p{i}": u for i, u in enumerate(uris) if u} if depth == 0 else None)
         for _ in range(draw(st.integers(0, 2))):
             an = draw(st.sampled_from(names))
             el.set(S.qn(draw(st.sampled_from([None, None] + uris)), an), draw(st.sampled_from(["1", "x", "", "true", "2001-01-01", "a b", "1.5"])))
-        kids = draw(st.integers(0, 4)) if depth < 4 else 0
+        kids = draw(st.integers(0, 4)) if depth < 4 and not (layered and names.index(nm) == len(names) - 1) else 0
         if kids == 0 or budget[0] <= 0:
             el.text = draw(st.sampled_from([None, "", "1", "abc", "1.5", "true", " x ", "2001-01-01", "é"]))
             return el
         for _ in range(kids):
             if budget[0] <= 0:
                 break
-            c = node(depth + 1)
+            c = node(depth + 1, names.index(nm))
             el.append(c)
         return el
     return etree.tostring(node(0), encoding="unicode")
@@ -168,9 +170,14 @@ def cases(draw, family):
         # name lives in one namespace: the generator's sample route merges such names into one class and then loses or duplicates
         # classes (recorded findings, known_examples/C07)
         names = draw(st.lists(st.sampled_from(XML_NAMES), min_size=2, max_size=8, unique_by=lambda n: "".join(c for c in n.lower() if c.isalnum())))
-        uris = draw(st.sampled_from([[None], ["urn:a"], [None, "urn:a"], ["urn:a", "urn:b"], ["http://example.com/some/long/Namespace-1.0", None]]))
-        docs = [draw(xml_sample(names, uris)) for _ in range(draw(st.integers(1, 3)))]
-        if (len(docs) > 1 or len(uris) > 1) and opts["structure_style"] in ("filenames", "namespaces", "namespace-clusters"):
+        uris = draw(st.sampled_from([[None], ["urn:a"], [None, "urn:a"], ["urn:a", "urn:b"], ["http://example.com/some/long/Namespace-1.0", None],
+                                     ["urn:shop:orders", "urn:shop:common:types"], ["http://example.com/a", "http://example.com/a/b/c", "urn:x"]]))
+        layered = draw(st.booleans())
+        docs = [draw(xml_sample(names, uris, layered)) for _ in range(draw(st.integers(1, 3)))]
+        if layered and len(uris) > 1 and draw(st.booleans()):
+            # packages of different depth importing from each other
+            opts["structure_style"], opts["relative_imports"] = "namespaces", draw(st.integers(0, 3)) != 0
+        if not layered and (len(docs) > 1 or len(uris) > 1) and opts["structure_style"] in ("filenames", "namespaces", "namespace-clusters"):
             # classes that refer to each other across the modules of two samples / namespaces are generated without the import (recorded finding)
             opts["structure_style"] = draw(st.sampled_from(["clusters", "single-package"]))
         return {"family": "xml", "docs": docs, "options": opts}
